@@ -20,6 +20,16 @@ def make(spec):
     return d
 
 
+def conflict_init(dst='development/4.3', clash='file_development_5.1',
+                  srcs=('bugfix/TEST-1', 'bugfix/TEST-2')):
+    """Two pull requests on `dst` that both write the file which the next
+    destination branch created: each conflicts when forward-ported, and the
+    second conflicts with the first once that one is merged.  Use with spec
+    key 'resolve': True (the developer resolves by hand)."""
+    return [['open', s, dst, AUTHOR, clash, 'version of %s\n' % s]
+            for s in srcs]
+
+
 def parent_prs(state, only_open=True):
     return [p for p in state['prs'] if p['author'] != ROBOT and
             (not only_open or p['state'] == 'OPEN')]
@@ -131,6 +141,21 @@ class Flow(Driver):
                             'log', '-1', '--format=%s', hs[b]).startswith(
                                 'manual fix'):
                         evs.append(['manual', b, kind])
+            if self.spec.get('resolve') and any(
+                    c[0] == k and c[1] == ROBOT and 'onflict' in c[2]
+                    for c in state['comments']):
+                # Bert-E reported a conflict: the developer creates (or
+                # redoes) the first missing integration branch by hand
+                from .faults import targets_of
+                from .monitors import dests
+                for t in targets_of(pr['dst'], list(dests(state)))[1:]:
+                    b = 'w/%s/%s' % (t.split('/', 1)[1], src)
+                    if b not in hs:
+                        evs.append(['manual', b, 'resolve'])
+                        break
+                if not w.is_ancestor(hs[pr['dst']], hs[src]):
+                    # ... or merges the destination into the source branch
+                    evs.append(['merge_dst', src])
             for cm in self.comments:
                 user, text = cm[0], cm[1]
                 limit = cm[2] if len(cm) > 2 else 1
@@ -154,6 +179,10 @@ class Flow(Driver):
         if self.eval_children:
             for pr in child_prs(state):
                 evs.append(['eval_pr', pr['id']])
+        if self.spec.get('decline_children'):
+            # somebody declines an integration pull request by hand
+            for pr in child_prs(state):
+                evs.append(['decline', pr['id']])
         qs = sorted(b for b in hs if b.startswith('q/'))
         qmaster = [b for b in qs if not b.startswith('q/w/')]
         if qs:
@@ -288,19 +317,22 @@ class Hold(Driver):
         hs = heads_of(state)
         key = self.config.build_key
         hold = self.spec['hold']
-        pr1 = [p for p in state['prs'] if p['id'] == 1][0]
+        S = self.spec.get('subject', 1)
+        DEP = self.spec.get('dependency', 2)
+        pr1 = [p for p in state['prs'] if p['id'] == S][0]
+        SRC1 = pr1['src']
         if pr1['state'] == 'OPEN':
-            evs.append(['eval_pr', 1])
-            tips = [self.SRC1] + int_branches(state, self.SRC1)
+            evs.append(['eval_pr', S])
+            tips = [SRC1] + int_branches(state, SRC1)
             if any(status_in(state, hs[b], key) != 'SUCCESSFUL'
                    for b in tips if b in hs):
-                evs.append(['ci_int', 1, 'SUCCESSFUL'])
+                evs.append(['ci_int', S, 'SUCCESSFUL'])
             if self.spec.get('decline', True):
-                evs.append(['decline', 1])
+                evs.append(['decline', S])
         elif pr1['state'] == 'DECLINED':
-            evs.append(['eval_pr', 1])
+            evs.append(['eval_pr', S])
         elif self.spec.get('eval_merged', True):
-            evs.append(['eval_pr', 1])
+            evs.append(['eval_pr', S])
         qmaster = sorted(b for b in hs if b.startswith('q/') and
                          not b.startswith('q/w/'))
         if qmaster:
@@ -309,23 +341,23 @@ class Hold(Driver):
                 evs.append(['ci_q_all', 'SUCCESSFUL'])
             evs.append(['eval_commit', qmaster[0]])
         mine = [i for i, c in enumerate(
-            [c for c in state['comments'] if c[0] == 1])
+            [c for c in state['comments'] if c[0] == S])
             if c[1] == AUTHOR and c[2] == hold]
         if not mine:
-            evs.append(['comment', 1, AUTHOR, hold])
+            evs.append(['comment', S, AUTHOR, hold])
         for i in mine:
-            evs.append(['uncomment', 1, i])
+            evs.append(['uncomment', S, i])
         # lifting a dependency on pull request 2 by merging it
-        pr2 = [p for p in state['prs'] if p['id'] == 2]
+        pr2 = [p for p in state['prs'] if p['id'] == DEP]
         if pr2 and pr2[0]['state'] == 'OPEN' and \
                 self.spec.get('merge_pr2', False):
             if self.config.queue:
-                evs.append(['seq', ['eval_pr', 2],
-                            ['ci_int', 2, 'SUCCESSFUL'], ['eval_pr', 2],
-                            ['ci_q_all', 'SUCCESSFUL'], ['eval_pr', 2]])
+                evs.append(['seq', ['eval_pr', DEP],
+                            ['ci_int', DEP, 'SUCCESSFUL'], ['eval_pr', DEP],
+                            ['ci_q_all', 'SUCCESSFUL'], ['eval_pr', DEP]])
             else:
-                evs.append(['seq', ['eval_pr', 2],
-                            ['ci_int', 2, 'SUCCESSFUL'], ['eval_pr', 2]])
+                evs.append(['seq', ['eval_pr', DEP],
+                            ['ci_int', DEP, 'SUCCESSFUL'], ['eval_pr', DEP]])
         return evs
 
 
